@@ -57,7 +57,7 @@ def suffix (tr : String) : String := (tr.drop 2).toString
 
 /-- The typed description of the case, from the `cfg`, `c` and `x` records. -/
 def mkCfg (st : DSt) : Cfg :=
-  let carrier := (st.calls.zipIdx.find? fun (k, _) => k.meth == "drive").map (·.2)
+  let carrier := (st.calls.zipIdx.find? fun (k, _) => k.meth == "drive" || k.meth == "mrtr").map (·.2)
   let vdirC2S := match st.calls[st.victim]? with
     | some k => k.dir == "c2s"
     | none => true
